@@ -425,6 +425,39 @@ def order_by_seed(items, seed):
 
 
 # ---------------------------------------------------------------------------
+def _run_with_coverage(mod, ctx, pid, covdir):
+    """Diagnostic mode (BEX_COVERAGE=<dir>): which Python lines of bempp_cl and which Numba kernels does this check execute?
+
+    Not part of any verdict; used to find library code no check reaches (see DESIGN C.6).
+    """
+    import coverage
+    import bempp_cl
+
+    os.makedirs(covdir, exist_ok=True)
+    cov = coverage.Coverage(data_file=os.path.join(covdir, "%s.cov" % pid), source=[os.path.dirname(os.path.abspath(bempp_cl.__file__))])
+    cov.start()
+    try:
+        rc = mod.run(ctx)
+    finally:
+        cov.stop()
+        cov.save()
+        compiled = {}
+        try:
+            from numba.core.dispatcher import Dispatcher
+
+            for mname, m in list(sys.modules.items()):
+                if not mname.startswith("bempp_cl") or m is None:
+                    continue
+                for name, obj in list(vars(m).items()):
+                    if isinstance(obj, Dispatcher) and getattr(obj, "py_func", None) is not None and obj.py_func.__module__ == mname:
+                        compiled["%s.%s" % (mname, name)] = len(obj.signatures)
+        except Exception as exc:  # noqa: BLE001
+            compiled["error"] = repr(exc)
+        with open(os.path.join(covdir, "%s.kernels.json" % pid), "w") as f:
+            json.dump(compiled, f, indent=0, sort_keys=True)
+    return rc
+
+
 def main(pid, tier, replay, jobs, only=None):
     seed = int(os.environ.get("VERIF_SEED", "0") or 0)
     try:
@@ -450,6 +483,9 @@ def main(pid, tier, replay, jobs, only=None):
         numba.set_num_threads(min(int(getattr(mod, "THREADS", 2)), numba.config.NUMBA_NUM_THREADS))
     except Exception:  # noqa: BLE001
         pass
+    covdir = os.environ.get("BEX_COVERAGE")
+    if covdir and not replay:
+        return _run_with_coverage(mod, ctx, pid, covdir)
     try:
         if replay:
             with open(replay) as f:
